@@ -196,7 +196,13 @@ def check_exception(exc_got, want, runstate=None):
     if not flag and runstate['IGNORE_EXCEPTION_DETAIL']:
         exc_got1 = _strip_exception_details(exc_got)
         exc_want1 = _strip_exception_details(exc_want)
-        flag = check_output(exc_got1, exc_want1, runstate)
+        if exc_want1:
+            flag = check_output(exc_got1, exc_want1, runstate)
+        else:
+            # check_output treats an empty want as "nothing to check"; a want
+            # that names no exception type (e.g. "ValueError...") must not
+            # agree with every exception.
+            flag = (exc_got1 == exc_want1)
         if flag:
             exc_got = exc_got1
             exc_want = exc_want1
